@@ -9,7 +9,8 @@ import (
 
 type gcfg struct {
 	frac    int  // chance (in 100) of fractional coordinates
-	wide    bool // use the whole range [-32000, 32000] (deltas up to 64000)
+	wide    bool // deltas up to 32767
+	huge    bool // deltas up to 64000 (coordinates stay within [-32000, 32000])
 	offgrid bool
 }
 
@@ -37,8 +38,11 @@ func delta(r *vlib.Rand, c *gcfg) int64 {
 			return vlib.Pick(r, []int64{1, -1, 32768, -32768, 65535, -65535, 65537})
 		}
 	case 5:
-		if c.wide {
+		if c.huge {
 			return int64(r.Range(-64000, 64000)) * sc
+		}
+		if c.wide {
+			return int64(r.Range(-32767, 32767)) * sc
 		}
 		return int64(r.Range(-3000, 3000)) * sc
 	}
@@ -56,6 +60,18 @@ func genPath(r *vlib.Rand, c *gcfg, x, y *int64, n int, style int) []gcmd {
 		kind := style
 		if style == 2 {
 			kind = r.Intn(2)
+		}
+		if style >= 10 {
+			kind = 1
+		}
+		if style == 9 { // strictly alternating axis-aligned lines
+			dx, dy := int64(r.Range(1, 90))*sc, int64(0)
+			if i%2 == 1 {
+				dx, dy = dy, dx
+			}
+			*x, *y = step(dx, *x), step(dy, *y)
+			out = append(out, gcmd{kind: 'l', a: []int64{*x, *y}})
+			continue
 		}
 		if kind == 0 { // line
 			dx, dy := delta(r, c), delta(r, c)
@@ -83,7 +99,25 @@ func genPath(r *vlib.Rand, c *gcfg, x, y *int64, n int, style int) []gcmd {
 				d[j] = int64(r.Range(1, 60)) * sc
 			}
 		}
-		switch r.Intn(9) {
+		pat := r.Intn(9)
+		if style >= 10 {
+			// the whole run fits one operator family (long runs reach the stack limit)
+			pat = style - 10
+			for j := range d {
+				if d[j] == 0 {
+					d[j] = int64(r.Range(1, 60)) * sc
+				}
+			}
+			if (pat == 0 || pat == 1) && i == 0 && r.Bool() {
+				pat = 8 // the first curve of hhcurveto / vvcurveto may start in any direction
+				if style == 10 {
+					d[5] = 0
+				} else {
+					d[4] = 0
+				}
+			}
+		}
+		switch pat {
 		case 0: // hh
 			d[1], d[5] = 0, 0
 		case 1: // vv
@@ -110,7 +144,7 @@ func genPath(r *vlib.Rand, c *gcfg, x, y *int64, n int, style int) []gcmd {
 				d[1] = 0
 			}
 		}
-		if len(out) > 0 && r.Chance(1, 3) {
+		if style < 10 && len(out) > 0 && r.Chance(1, 3) {
 			// second half of a flex: previous curve ends flat, this one starts flat and returns
 			p := out[len(out)-1]
 			if p.kind == 'c' && len(out) >= 1 {
@@ -204,7 +238,7 @@ func genGlyph(r *vlib.Rand, c *gcfg) *Glyph {
 			ny = clampCoord(y + delta(r, c))
 		default:
 			nx, ny = clampCoord(x+delta(r, c)), clampCoord(y+delta(r, c))
-			if c.wide && r.Chance(1, 3) {
+			if c.huge && r.Chance(1, 3) {
 				nx, ny = int64(r.Range(-32000, 32000))*sc, int64(r.Range(-32000, 32000))*sc
 			}
 		}
@@ -214,6 +248,9 @@ func genGlyph(r *vlib.Rand, c *gcfg) *Glyph {
 		for p := 0; p < parts; p++ {
 			n := vlib.Pick(r, []int{1, 1, 2, 3, 4, 5, 8, 9, 12, 23, 24, 25, 30, 49})
 			style := r.Intn(3)
+			if r.Chance(1, 4) {
+				style = vlib.Pick(r, []int{9, 10, 11, 14, 15})
+			}
 			if r.Chance(1, 8) {
 				g.Cmds = append(g.Cmds, genFlex(r, c, &x, &y)...)
 			}
@@ -269,8 +306,24 @@ func addGlyph(run *vlib.Run, g *Glyph, dflt, nom int64, labels ...string) {
 	}
 	idx := run.Add(cl, impl, nl+nc >= 2 || len(g.HS)+len(g.VS) > 0, labels...)
 	if fail != "" {
-		run.Fail(idx, cl, fail, sig)
+		report(run, idx, cl, fail, sig)
 	}
+}
+
+// report records an oracle failure; the known open finding is limited to a
+// few witnesses so that it can never crowd other failures out of the
+// (capped) list.
+var reported = map[string]int{}
+
+func report(run *vlib.Run, idx int, cl, fail, sig string) {
+	if sig == sigBigDelta {
+		reported[sig]++
+		if reported[sig] > 25 {
+			run.Hist["known-finding-not-listed:"+sig]++
+			return
+		}
+	}
+	run.Fail(idx, cl, fail, sig)
 }
 
 var opNames1 = map[byte]string{1: "hstem", 3: "vstem", 4: "vmoveto", 5: "rlineto", 6: "hlineto", 7: "vlineto",
@@ -332,7 +385,7 @@ func numCase(run *vlib.Run, xs []int64, labels ...string) {
 	}
 	idx := run.Add(cl, impl, true, labels...)
 	if fail != "" {
-		run.Fail(idx, cl, fail, sig)
+		report(run, idx, cl, fail, sig)
 	}
 }
 
@@ -373,7 +426,7 @@ func Gen(run *vlib.Run, seed uint64, tier string) {
 	numCase(run, []int64{32768*sc + 32768}, "stream:number-out-of-range")
 
 	// (2) encodeArgs and AppendEdges on runs of drawing commands
-	ne := vlib.Count(tier, 1500, 40000)
+	ne := vlib.Count(tier, 4000, 100000)
 	for i := 0; i < ne; i++ {
 		c := grid
 		var x, y int64 = int64(r.Range(-500, 500)) * sc, int64(r.Range(-500, 500)) * sc
@@ -386,7 +439,11 @@ func Gen(run *vlib.Run, seed uint64, tier string) {
 		if r.Chance(1, 6) {
 			cs = append(cs, genFlex(r, c, &x, &y)...)
 		}
-		cs = append(cs, genPath(r, c, &x, &y, n, i%3)...)
+		st := i % 3
+		if i%5 == 4 {
+			st = vlib.Pick(r, []int{9, 10, 11, 14, 15})
+		}
+		cs = append(cs, genPath(r, c, &x, &y, n, st)...)
 		cl := vlib.Line(vlib.Atom("edges"), vlib.I64(x0), vlib.I64(y0), cmdsSx(cs))
 		impl := edgesObs(x0, y0, cs)
 		idx := run.Add(cl, impl, len(cs) >= 2, "stream:edges", fmt.Sprintf("runlen:%d", len(cs)/8*8))
@@ -405,7 +462,7 @@ func Gen(run *vlib.Run, seed uint64, tier string) {
 	}
 
 	// (3) whole glyphs through encodeCharString
-	ng := vlib.Count(tier, 2500, 60000)
+	ng := vlib.Count(tier, 6000, 150000)
 	for i := 0; i < ng; i++ {
 		c := grid
 		if i%5 == 4 {
@@ -431,8 +488,18 @@ func Gen(run *vlib.Run, seed uint64, tier string) {
 		addGlyph(run, g, dflt, nom, lab)
 	}
 
+	// (3b) deltas of magnitude >= 32768 between points inside [-32000, 32000]
+	// (reported as an open finding; kept small so that it cannot crowd out other failures)
+	hugec := &gcfg{frac: 5, wide: true, huge: true}
+	for i := vlib.Count(tier, 25, 60); i > 0; i-- {
+		g := genGlyph(r, hugec)
+		dflt, nom := pickWidths(r, true)
+		g.W = dflt
+		addGlyph(run, g, dflt, nom, "stream:glyphs-deltas-up-to-64000")
+	}
+
 	// (4) end to end through Font.Write and cff.Read (oracle only)
-	nf := vlib.Count(tier, 60, 1500)
+	nf := vlib.Count(tier, 100, 2500)
 	for i := 0; i < nf; i++ {
 		k := r.Range(1, 6)
 		var gs []*Glyph
@@ -455,7 +522,7 @@ func Gen(run *vlib.Run, seed uint64, tier string) {
 
 	// (5) coordinates finer than 2^-16 (outside the grid model): each decoded
 	// coordinate within 2^-16 of the original, no accumulation (oracle only)
-	no := vlib.Count(tier, 200, 5000)
+	no := vlib.Count(tier, 300, 8000)
 	for i := 0; i < no; i++ {
 		fail := offGridCase(r)
 		idx := run.Add(fmt.Sprintf("!offgrid %d", i), "offgrid", true, "stream:off-grid")
